@@ -44,8 +44,16 @@ def render_case(case) -> dict:
         "str": digest(str(tl)),
     }
     kw = {k: attr_value(v) for k, v in case.get("kw", [])}
-    d = h.HTMLDocument(*[build(x) for x in case["roots"]], **kw).render()
+    docobj = h.HTMLDocument(*[build(x) for x in case["roots"]], **kw)
+    d = docobj.render()
     out["doc"] = digest(d["html"])
+    out["doc_again"] = digest(docobj.render()["html"])  # the very same objects rendered a second time
+    if case.get("html_root"):
+        page = h.Tag("html", h.Tag("head"), h.Tag("body", *[build(x) for x in case["roots"]]))
+        p1 = h.HTMLDocument(page).render()["html"]
+        p2 = h.HTMLDocument(page).render()["html"]
+        out["page"] = digest(p1)
+        out["page_again"] = digest(p2)
     out["doc_deps"] = [[x.name, str(x.version)] for x in d["dependencies"]]
     h.html_dependency_render_mode = "json"
     try:
